@@ -119,7 +119,9 @@ func (f *Func) LLString() string {
 	// Function definition.
 	//
 	//	'define' Header=FuncHeader Metadata=MetadataAttachment* Body=FuncBody
-	if err := f.AssignIDs(); err != nil {
+	// Local IDs are derived from the current position of each unnamed value, as
+	// the function may have been extended or edited since it was last printed.
+	if err := f.assignIDs(true); err != nil {
 		panic(fmt.Errorf("unable to assign IDs of function %q; %v", f.Ident(), err))
 	}
 	buf := &strings.Builder{}
@@ -149,14 +151,25 @@ func (f *Func) LLString() string {
 	}
 }
 
-// AssignIDs assigns IDs to unnamed local variables.
+// AssignIDs assigns IDs to unnamed local variables. An error is returned if an
+// unnamed local variable already has a (non-zero) ID which differs from the ID
+// implied by its position.
 func (f *Func) AssignIDs() error {
+	return f.assignIDs(false)
+}
+
+// assignIDs assigns IDs to unnamed local variables. If renumber is set,
+// previously assigned IDs are replaced by the ID implied by the current
+// position (used when printing, as a previous print has left IDs behind which
+// are stale once the function is extended or edited); otherwise they are
+// validated (used by the parser to check the explicit IDs of the input).
+func (f *Func) assignIDs(renumber bool) error {
 	f.mu.Lock()
 	defer f.mu.Unlock()
 	id := int64(0)
 	setName := func(n namedVar) error {
 		if n.IsUnnamed() {
-			if n.ID() != 0 && id != n.ID() {
+			if !renumber && n.ID() != 0 && id != n.ID() {
 				want := id
 				got := n.ID()
 				return errors.Errorf("invalid local ID in function %q, expected %s, got %s", f.Ident(), enc.LocalID(want), enc.LocalID(got))
